@@ -165,7 +165,7 @@ impl Scenario for ReplyScenario {
     }
 }
 
-fn gen_request(rng: &mut Rng, points: &[PointCfg], rx: usize) -> Op {
+pub fn gen_request(rng: &mut Rng, points: &[PointCfg], rx: usize) -> Op {
     match rng.below(12) {
         0..=2 => gen_executed_request(rng, points, Dest::Own),
         3 => {
